@@ -37,13 +37,21 @@ var profOpts = gen.Opts{Alpha: gen.Plain, MaxSamples: 8, MaxDepth: 5, MaxLines: 
 
 // one unit per numeric label key across the profile (the documented NumLabelUnits rule picks the
 // first and ignores the rest; the statement is silent on mixed units)
-var keyUnit = map[string]string{"k": "", "tag": "ms", "user": "", "bytes": "bytes", "request": "", "alignment": "kb", "thread": "seconds"}
+var keyUnit = map[string]string{"k": "", "tag": "ms", "user": "nanoseconds", "bytes": "bytes", "request": "", "alignment": "kb", "thread": "seconds"}
+
+// unitOfKey: "thread" is recorded in seconds by half of the profiles and in nanoseconds by the others
+func unitOfKey(p *gen.Prof, key string) string {
+	if key == "thread" && len(p.Samples)%2 == 1 {
+		return "nanoseconds"
+	}
+	return keyUnit[key]
+}
 
 func normalizeLabels(p *gen.Prof) {
 	for si := range p.Samples {
 		for ni := range p.Samples[si].Nums {
 			n := &p.Samples[si].Nums[ni]
-			u := keyUnit[n.Key]
+			u := unitOfKey(p, n.Key)
 			if u == "" {
 				n.HasUnits, n.Units = false, nil
 			} else {
@@ -54,6 +62,21 @@ func normalizeLabels(p *gen.Prof) {
 				}
 			}
 			for i, v := range n.Vals {
+				round := map[string][]int64{"ms": {1000, 2000, 5000, 60000}, "bytes": {1024, 4096, 1 << 20, 65536}, "kb": {1024, 2048, 4096, 1 << 20}}
+				if r, ok := round[u]; ok && v%2 == 0 {
+					// round magnitudes, as sizes and time-outs usually are: a bound in a coarser unit can coincide
+					if v < 0 {
+						v = -v
+					}
+					n.Vals[i] = r[v/2%int64(len(r))]
+				}
+				if u == "nanoseconds" && v%2 == 0 {
+					// whole seconds written in nanoseconds: a range bound given in seconds can coincide with them
+					if v < 0 {
+						v = -v
+					}
+					n.Vals[i] = []int64{1, 2, 5, 10, 15, 30, 60, 120, 300, 3600}[(v/2*7+int64(si*3+ni+i))%10] * 1000000000
+				}
 				if v == 0 && u == "" {
 					n.Vals[i] = 1
 				}
@@ -110,12 +133,39 @@ func genRange(t *rapid.T, p *gen.Prof) string {
 		for _, n := range sm.Nums {
 			for _, v := range n.Vals {
 				if v >= 0 {
-					own = append(own, lv{v, keyUnit[n.Key]})
+					own = append(own, lv{v, unitOfKey(p, n.Key)})
 				}
 			}
 		}
 	}
 	u := rapid.SampledFrom(units).Draw(t, "runit")
+	// the same magnitude written in a coarser unit of the family, when it is a whole number of those
+	coarser := map[string]struct {
+		u string
+		f int64
+	}{"nanoseconds": {"s", 1000000000}, "ms": {"s", 1000}, "bytes": {"kb", 1024}, "kb": {"mb", 1024}}
+	var conv []lv
+	for _, o := range own {
+		if cu, ok := coarser[o.u]; ok && o.v > 0 && o.v%cu.f == 0 {
+			conv = append(conv, lv{o.v / cu.f, cu.u})
+		}
+	}
+	if len(conv) > 0 && rapid.IntRange(0, 1).Draw(t, "conv") == 0 {
+		// a bound that coincides with a label written in a finer unit; the exact form is the most sensitive
+		o := rapid.SampledFrom(conv).Draw(t, "convv")
+		b := strconv.FormatInt(o.v, 10) + o.u
+		switch rapid.IntRange(0, 5).Draw(t, "convform") {
+		case 0:
+			return b + ":"
+		case 1:
+			return ":" + b
+		case 2:
+			return "0" + o.u + ":" + b
+		case 3:
+			return b + ":" + strconv.FormatInt(o.v*1000, 10) + o.u
+		}
+		return b
+	}
 	num := func(l string) string {
 		if len(own) > 0 && rapid.Bool().Draw(t, l+"own") {
 			o := rapid.SampledFrom(own).Draw(t, l+"ownv")
@@ -173,7 +223,7 @@ func genTagFilter(t *rapid.T, p *gen.Prof, label string) string {
 	if rapid.IntRange(0, 2).Draw(t, label+"haskey") == 0 {
 		key = rapid.SampledFrom(keys).Draw(t, label+"key") + "="
 	}
-	if rapid.IntRange(0, 2).Draw(t, label+"isrange") == 0 {
+	if rapid.IntRange(0, 1).Draw(t, label+"isrange") == 0 {
 		return key + genRange(t, p)
 	}
 	// letters-only regexps so that they cannot be mistaken for a range
@@ -200,12 +250,14 @@ func genTagFilter(t *rapid.T, p *gen.Prof, label string) string {
 func genCase(t *rapid.T) *filterCase {
 	p := gen.Profile(t, profOpts)
 	normalizeLabels(p)
+	odd := false
 	if len(p.Functions) > 0 && rapid.IntRange(0, 3).Draw(t, "oddnames") == 0 {
+		odd = true
 		// names that interact with how an expression is typed or passed: one that starts like the "-cum" switch
 		// of interactive commands, and two that differ only by a word before a blank
-		p.Functions[0].Name = rapid.SampledFrom([]string{"cumsum", "cumulative_total", "operator new", "cum"}).Draw(t, "oddname0")
+		p.Functions[0].Name = rapid.SampledFrom([]string{"cumsum", "cumulative_total", "operator new", "cum", "3rdparty", "9p_read"}).Draw(t, "oddname0")
 		if len(p.Functions) > 1 {
-			p.Functions[len(p.Functions)-1].Name = rapid.SampledFrom([]string{"newobject", "new", "sum", "operator new[]"}).Draw(t, "oddname1")
+			p.Functions[len(p.Functions)-1].Name = rapid.SampledFrom([]string{"newobject", "new", "sum", "operator new[]", "2fast", "7zip"}).Draw(t, "oddname1")
 		}
 	}
 	var pool []string
@@ -248,6 +300,16 @@ func genCase(t *rapid.T) *filterCase {
 	c.F.Relative = rapid.Bool().Draw(t, "relative")
 	c.PartR = genRegex(t, pool, "part")
 	c.Interactive = rapid.IntRange(0, 3).Draw(t, "interactive") == 0
+	if odd && rapid.Bool().Draw(t, "oddfocus") {
+		// the odd name itself as the expression, typed at the prompt (as an assignment or as a command argument)
+		n := regexp.QuoteMeta(p.Functions[0].Name)
+		if rapid.Bool().Draw(t, "oddignore") {
+			c.F.Ignore = n
+		} else {
+			c.F.Focus = n
+		}
+		c.Interactive = true
+	}
 	return c
 }
 
@@ -765,6 +827,27 @@ func check(c *filterCase, o *vk.Obs) []string {
 	o.LabelIf(c.F.TagIgnore != "", "tagignore")
 	o.LabelIf(strings.Contains(c.F.TagFocus+c.F.TagIgnore, ":") || regexp.MustCompile(`(^|=)[0-9]`).MatchString(c.F.TagFocus+" "+c.F.TagIgnore), "numeric-range")
 	o.LabelIf(c.F.TagShow+c.F.TagHide != "", "tagshow/hide")
+	for _, expr := range []string{c.F.TagFocus, c.F.TagIgnore} {
+		val := expr
+		if i := strings.Index(expr, "="); i >= 0 {
+			val = expr[i+1:]
+		}
+		if r, ok := parseRange(val); ok && r.known {
+			for _, sm := range p.Sample {
+				for k, vals := range sm.NumLabel {
+					lu := labelUnit(p, k)
+					fam, f, known := unitOf(lu)
+					_, fb, _ := unitOf(r.unit)
+					for _, v := range vals {
+						if known && fam == r.fam && f != fb && ((r.hasLo && float64(v)*f == r.lo) || (r.hasHi && float64(v)*f == r.hi)) {
+							o.Label("range-bound-equals-a-label-in-another-unit")
+							o.LabelIf(f == 1 && fam == 2, "range-bound-in-seconds-equals-a-label-in-nanoseconds")
+						}
+					}
+				}
+			}
+		}
+	}
 	o.LabelIf(framesCut, "frames-removed")
 	o.LabelIf(removedSome && keptSome, "samples-partitioned")
 	labelsCut := false
@@ -974,8 +1057,11 @@ func runProtoInteractive(p *profile.Profile, f Filt) (*profile.Profile, *pp.Res,
 	for _, k := range []string{"focus", "ignore", "hide", "show", "show_from", "tagfocus", "tagignore", "tagshow", "taghide"} {
 		lines = append(lines, k+"="+fl[k])
 	}
-	word := regexp.MustCompile(`^[A-Za-z_][A-Za-z0-9_.|]*$`)
-	if (f.Focus == "" || word.MatchString(f.Focus)) && (f.Ignore == "" || word.MatchString(f.Ignore)) && f.Focus+f.Ignore != "" {
+	// a word that is not a number (a bare number is the documented node-count argument)
+	wordRx, numRx := regexp.MustCompile(`^[A-Za-z_0-9][A-Za-z0-9_.|]*$`), regexp.MustCompile(`^[0-9]+$`)
+	word := func(s string) bool { return wordRx.MatchString(s) && !numRx.MatchString(s) }
+	// ("-cum" is the documented sort switch of interactive commands, not an ignore expression)
+	if (f.Focus == "" || word(f.Focus)) && (f.Ignore == "" || word(f.Ignore)) && f.Focus+f.Ignore != "" && f.Ignore != "cum" {
 		// the same two filters as arguments of the command: "proto focus -ignore >out"
 		lines = nil
 		for _, k := range []string{"hide", "show", "show_from", "tagfocus", "tagignore", "tagshow", "taghide"} {
